@@ -250,4 +250,63 @@ def objEq : Obj → Obj → Bool
   | .plain k v, .wrapped k' w => if k = k' then eqRaw k' w v else false
   | .plain k v, .plain k' w => k = k' && v = w
 
+/-! ### `str()` / `repr()` of the objects, and `MACEUISearch` (`search_all_formats`, `__str__`) -/
+
+/-- `'<MACObj '` / `'<EUI64Obj '` -/
+def reprHead : Kind → Str
+  | .mac => ['<', 'M', 'A', 'C', 'O', 'b', 'j', ' ']
+  | .eui64 => ['<', 'E', 'U', 'I', '6', '4', 'O', 'b', 'j', ' ']
+
+/-- `MACObj.__repr__` / `EUI64Obj.__repr__` (`__str__` returns the same text):
+`f'<MACObj {str(self.mac)}>'` — the class name and macaddress' canonical (upper-case dash) text -/
+def reprObj (k : Kind) (v : Nat) : Str := reprHead k ++ hwStr k.cls v ++ ['>']
+
+/-- `'<MACEUISearch word: '` -/
+def searchHead : Str :=
+  ['<', 'M', 'A', 'C', 'E', 'U', 'I', 'S', 'e', 'a', 'r', 'c', 'h', ' ', 'w', 'o', 'r', 'd', ':', ' ']
+
+/-- `', found: '` -/
+def searchMid : Str := [',', ' ', 'f', 'o', 'u', 'n', 'd', ':', ' ']
+
+/-- `MAC <cisco>` / `EUI64 <cisco>` / `None` -/
+def foundText : Except Err (Kind × Nat) → Str
+  | .ok (.mac, v) => ['M', 'A', 'C', ' '] ++ cisco .mac v
+  | .ok (.eui64, v) => ['E', 'U', 'I', '6', '4', ' '] ++ cisco .eui64 v
+  | .error _ => ['N', 'o', 'n', 'e']
+
+/-- `MACEUISearch.__str__` (`__repr__` returns the same text) for the word and what `classify` found -/
+def searchStr (w : Str) : Str :=
+  searchHead ++ w ++ searchMid ++ foundText (classify w) ++ ['>']
+
+/-- the regexes the correspondence feeds to `search_all_formats`: hex digits, `-`, `:` (all literal
+outside a character class) and `.` (any character but a newline) -/
+def rxCharOk (c : Char) : Bool := isHex c || c == '-' || c == ':' || c == '.'
+
+/-- one pattern character against one text character under `re.I` -/
+def rxMatchChar (p c : Char) : Bool :=
+  if p = '.' then c != '\n' else lowerChar p == lowerChar c
+
+/-- `re.match(rgx, text, re.I)` for such a regex: position by position -/
+def rxAt : Str → Str → Bool
+  | [], _ => true
+  | _ :: _, [] => false
+  | p :: ps, c :: cs => rxMatchChar p c && rxAt ps cs
+
+/-- `re.search(rgx, text, re.I)`: a match at some position -/
+def rxSearch (p : Str) : Str → Bool
+  | [] => rxAt p []
+  | c :: cs => rxAt p (c :: cs) || rxSearch p cs
+
+/-- the four texts `search_all_formats` tries: `dash`, `colon`, `cisco`, `dash.replace('-', '')` -/
+def searchTexts (k : Kind) (v : Nat) : List Str :=
+  [dash k v, colon k v, cisco k v, (dash k v).filter (· != '-')]
+
+/-- `MACEUISearch(word).search_all_formats(mac_regex_strs)`: `False` when the word is not an address,
+else whether some regex of the set is found in one of the four texts (the `for` loop returns at the
+first hit, so the iteration order of the set does not matter) -/
+def searchAllFormats (rgxs : List Str) (w : Str) : Bool :=
+  match classify w with
+  | .error _ => false
+  | .ok (k, v) => rgxs.any (fun r => (searchTexts k v).any (fun t => rxSearch r t))
+
 end Ccp.Mac
